@@ -367,6 +367,22 @@ PrefixObs ==
            \A i \in DOMAIN Ev.handled : Ev.handled[i].got = Ev.handled[i].want>> }))
   /\ UNCHANGED <<run, tabs, reserved, plugins, flags, stack, genf, cur, lastAdd, files, pass>>
 
+\* RegenObs is written by the harness (C07): this run started from a derived.gen.go left by an
+\* earlier version of the sources (or a truncated remnant); a second run of the same sources in a
+\* fresh copy without derived.gen.go gives the scratch result.
+RegenObs ==
+  /\ IsEvent("RegenObs")
+  /\ Fail(Checks({
+       <<"RegenObs: run over the old derived.gen.go fails although the run from scratch succeeds (C07)",
+           Ev.exitS = 0 => Ev.exitR = 0>>,
+       <<"RegenObs: derived.gen.go differs from the one generated from scratch (C07)",
+           (Ev.exitS = 0 /\ Ev.exitR = 0) => (Ev.existsR = Ev.existsS /\ Ev.shaR = Ev.shaS)>>,
+       <<"RegenObs: package does not type-check after one regeneration run (C07)",
+           (Ev.exitS = 0 /\ Ev.exitR = 0 /\ Ev.scratchTypechecks) => Ev.typechecksR>>,
+       <<"RegenObs: derived.gen.go not removed although no derive calls remain (C07)",
+           (Ev.exitR = 0 /\ ~Ev.callsRemain) => ~Ev.existsR>> }))
+  /\ UNCHANGED <<run, tabs, reserved, plugins, flags, stack, genf, cur, lastAdd, files, pass>>
+
 \* events that carry no obligation at this layer
 Other ==
   /\ l <= N
@@ -378,7 +394,7 @@ Next ==
   \/ RunStart \/ PkgStart \/ Call \/ Dispatch \/ NoPlugin
   \/ SetFuncName \/ SetFuncNameRet \/ SetFuncNameAuto \/ GetFuncName \/ NewName \/ GetFuncNameRet
   \/ AddRet \/ Rename \/ Rewrite \/ GenStart \/ Generating \/ GenEnd
-  \/ PassEnd \/ PrintFile \/ DeleteFile \/ Reload \/ PkgExit \/ RunEnd \/ FileObs \/ PrefixObs \/ Other
+  \/ PassEnd \/ PrintFile \/ DeleteFile \/ Reload \/ PkgExit \/ RunEnd \/ FileObs \/ PrefixObs \/ RegenObs \/ Other
 
 Spec == Init /\ [][Next]_vars
 
